@@ -322,3 +322,16 @@ def write_evidence(prop, tier, coverage, wall_s, violations, assumptions):
 
 def rng_for(name):
     return random.Random(f'{SEED}:{name}')
+
+
+def trip_unrelated_cache_guard(ld):
+    """An unrelated memory cache in the same process runs into its memory guard (keep_mem_free='100%': there is never that
+    much free memory) and stops caching.  That decision belongs to that one cache: every other cache must behave as before."""
+    import warnings
+    with warnings.catch_warnings():
+        warnings.simplefilter('ignore')
+        s = ld.new([[1], [2], [3]]).map(lambda e: e).cache(keep_mem_free='100%')
+        a = [list(s), list(s)]
+        c = s.copy()
+        a.append(list(c))
+    return a
